@@ -216,6 +216,8 @@ class State:
         self.pc = []
         self.notes = []
         self.steps = 0
+        self._kv = None
+        self._pcset = None
 
     def clone(self):
         s = State()
@@ -225,6 +227,8 @@ class State:
         s.pc = list(self.pc)
         s.notes = list(self.notes)
         s.steps = self.steps
+        s._kv = None
+        s._pcset = None
         return s
 
     def alloc(self, v=None):
@@ -249,7 +253,7 @@ class VM:
         self.funcs = funcs
         self.enums = enums                   # enum name -> [variant names]
         self.solver = z3.Solver()
-        self.solver.set('timeout', 15000)
+        self.solver.set('timeout', 30000)
         self.queries = 0
         self.solver_time = 0.0
         self.max_paths = max_paths
@@ -278,12 +282,48 @@ class VM:
         summaries.install(self)
 
     # ------------------------------------------------------------ solver
+    def known_values(self, st):
+        """(variable, constant) pairs that the path condition fixes syntactically: `x == c` conjuncts.
+        Substituting them first answers most branch queries without a solver call."""
+        cache = getattr(st, '_kv', None)
+        if cache is not None and cache[0] == len(st.pc):
+            return cache[1]
+        pairs = []
+        for c in st.pc:
+            if z3.is_eq(c) and c.num_args() == 2:
+                a, b = c.arg(0), c.arg(1)
+                if z3.is_const(a) and a.decl().kind() == z3.Z3_OP_UNINTERPRETED and (z3.is_bv_value(b) or z3.is_string_value(b) or z3.is_true(b) or z3.is_false(b)):
+                    pairs.append((a, b))
+                elif z3.is_const(b) and b.decl().kind() == z3.Z3_OP_UNINTERPRETED and (z3.is_bv_value(a) or z3.is_string_value(a) or z3.is_true(a) or z3.is_false(a)):
+                    pairs.append((b, a))
+            elif z3.is_const(c) and z3.is_bool(c) and c.decl().kind() == z3.Z3_OP_UNINTERPRETED:
+                pairs.append((c, z3.BoolVal(True)))
+            elif z3.is_not(c) and z3.is_const(c.arg(0)) and c.arg(0).decl().kind() == z3.Z3_OP_UNINTERPRETED:
+                pairs.append((c.arg(0), z3.BoolVal(False)))
+        st._kv = (len(st.pc), pairs)
+        return pairs
+
     def feasible(self, st, cond):
         c = simp(cond)
         if z3.is_true(c):
             return True
         if z3.is_false(c):
             return False
+        have = getattr(st, '_pcset', None)
+        if have is None or have[0] != len(st.pc):
+            have = (len(st.pc), set(x.sexpr() for x in st.pc))
+            st._pcset = have
+        if c.sexpr() in have[1]:
+            return True
+        if simp(z3.Not(c)).sexpr() in have[1]:
+            return False
+        kv = self.known_values(st)
+        if kv:
+            c2 = simp(z3.substitute(c, *kv))
+            if z3.is_true(c2):
+                return True
+            if z3.is_false(c2):
+                return False
         t0 = time.time()
         r = self.solver.check(*(st.pc + [c]))
         self.solver_time += time.time() - t0
